@@ -1,9 +1,9 @@
 # -*- coding: utf-8 -*-
 """
-C01 (lexical part) — the lexer: acceptance, tokens, error contract.
+C01 (lexical part) \u2014 the lexer: acceptance, tokens, error contract.
 
 * extract: IGNORED_CHARS / SYMBOLS / QUOTED_CHARS and the character sets the lexer tests membership in
-  → lean/PyGqlModel/Generated/LexTables.lean (theorems in Props/C01_lex.lean are stated about them).
+  \u2192 lean/PyGqlModel/Generated/LexTables.lean (theorems in Props/C01_lex.lean are stated about them).
 * correspondence: Lean `lexAll` (driver op "lex") vs `py_gql.lang.lexer.Lexer` on every stream.
 * direct oracles on the real code (independent of the model):
     O1 error contract: only GraphQLSyntaxError, 0 <= position <= len(text), str()/.highlighted/.to_dict() succeed;
@@ -83,15 +83,15 @@ def extract(ctx):
         if not isinstance(v, str):
             raise ValueError("lexer.py does not import string.%s" % nm)
         sets[nm] = v
-    out = ["/- GENERATED on every run by harness/corr/C01_lex.py from src/py_gql/lang/lexer.py — do not edit. -/",
+    out = ["/- GENERATED on every run by harness/corr/C01_lex.py from src/py_gql/lang/lexer.py \u2014 do not edit. -/",
            "namespace PyGql.Generated.LexTables", "",
            "/-- `IGNORED_CHARS` (code points, source order) -/",
            "def ignoredChars : List Nat := " + _lean_nat_list(ord(c) for c in lexer.IGNORED_CHARS), "",
-           "/-- `SYMBOLS`: character → token class name -/",
-           "def symbols : List (Nat × String) := [",
+           "/-- `SYMBOLS`: character \u2192 token class name -/",
+           "def symbols : List (Nat \u00d7 String) := [",
            ",\n".join('  (%d, "%s")' % (ord(k), n) for k, n in live), "]", "",
-           "/-- `QUOTED_CHARS`: escape character → decoded character -/",
-           "def quotedChars : List (Nat × Nat) := [" + ", ".join("(%d, %d)" % (ord(k), ord(v)) for k, v in qsrc) + "]", "",
+           "/-- `QUOTED_CHARS`: escape character \u2192 decoded character -/",
+           "def quotedChars : List (Nat \u00d7 Nat) := [" + ", ".join("(%d, %d)" % (ord(k), ord(v)) for k, v in qsrc) + "]", "",
            "/-- the character sets the lexer tests membership in (`string.digits`, `string.hexdigits`, `string.ascii_letters`) -/",
            "def digits : List Nat := " + _lean_nat_list(ord(c) for c in sets["digits"]),
            "def hexdigits : List Nat := " + _lean_nat_list(ord(c) for c in sets["hexdigits"]),
@@ -231,7 +231,7 @@ def eof_feature(text):
 # ---------------------------------------------------------------------------------------------
 # oracle O1 + correspondence on one batch of texts
 
-def check_texts(ctx, texts, stream, compare_model=True):
+def check_texts(ctx, texts, stream, compare_model=True, error_contract=True):
     """O1 on the real lexer for every text; correspondence with the model; returns list of real results."""
     texts = list(texts)
     reals = [real_lex(t) for t in texts]
@@ -249,7 +249,8 @@ def check_texts(ctx, texts, stream, compare_model=True):
             prefix_ok = real_prefix_tokens(t)
             if prefix_ok >= 1:
                 ctx.nontrivial(("lexerr", t))
-            oracle_error_contract(ctx, t, r)
+            if error_contract:
+                oracle_error_contract(ctx, t, r)
         else:
             t2 = shrink(t, lambda x: real_lex(x) == r)
             ctx.fail("internal:%s:%s" % (r[1], classes(t2)), "lexer raises %s instead of GraphQLSyntaxError" % r[1],
